@@ -474,9 +474,10 @@ def r6_whole_input_is_parsed(ctx: Ctx) -> None:
 def r7_unmapped_address_rejected(ctx: Ctx) -> None:
     """`unmapped address` is one of the listed failures: the bank lookup raises for a bank no mapping claims and the bank is the
     whole of address >> 16 (the C04.R4 obligation)"""
-    from .c04 import r4_rejection
+    from .c04 import r1_builtin_maps, r4_rejection
 
     r4_rejection(ctx)
+    r1_builtin_maps(ctx)  # which banks are unmapped is what the built-in tables say: a widened bank range accepts addresses no ROM has
 
 
 def recovery_scope(ctx: Ctx) -> None:
@@ -590,4 +591,12 @@ def r10_operand_brackets_closed(ctx: Ctx) -> None:
     operand_brackets_closed(ctx)
 
 
-RULES = [r1_handler_census, r2_entry_point_status, r3_error_values_consumed, r4_success_last, r5_escape_obligations, r6_whole_input_is_parsed, r7_unmapped_address_rejected, r8_recovery_scope, r9_dispatch_errors_name_the_dispatched_token, r10_operand_brackets_closed, rb_binding_agreement, rm_no_process_lifetime_results, ru_names_bound]
+def r11_unterminated_comment_is_an_error(ctx: Ctx) -> None:
+    """`lexical error` is one of the listed failures: a `/*` comment ends only at `*/`; reaching the end of input inside it raises, it does
+    not silently end the comment and drop the rest of the file (C16.R2: the COMMENT token is emitted only once `*/` has been found)"""
+    from .c16 import r2_skip_sets
+
+    r2_skip_sets(ctx)
+
+
+RULES = [r1_handler_census, r2_entry_point_status, r3_error_values_consumed, r4_success_last, r5_escape_obligations, r6_whole_input_is_parsed, r7_unmapped_address_rejected, r8_recovery_scope, r9_dispatch_errors_name_the_dispatched_token, r10_operand_brackets_closed, r11_unterminated_comment_is_an_error, rb_binding_agreement, rm_no_process_lifetime_results, ru_names_bound]
